@@ -4,7 +4,7 @@
 From Coq Require Import ZArith List Bool.
 From GCNP Require Import base.GoInt base.Bytes base.Codec gen.Constants_gen model.Prim model.DataType model.MsgTypes
   model.Frame model.MsgCodec model.MsgValid model.FrameValid proofs.FrameProofs proofs.MsgCodecProofs proofs.FrameFinal
-  gen.Flags_gen model.MsgRequests model.MsgResults proofs.FlagsGenAgree.
+  gen.Flags_gen model.MsgRequests model.MsgResults proofs.FlagsGenAgree gen.BodyPlan_gen proofs.BodyPlanAgree.
 Import ListNotations.
 Open Scope Z_scope.
 
@@ -85,3 +85,17 @@ Theorem C01_flags_regenerated_agree :
   (forall m, RowsMetadata_Flags_gen m = RowsMetadata_Flags m).
 Proof. exact flags_regenerated_agree. Qed.
 Print Assumptions C01_flags_regenerated_agree.
+
+(* the body prefix (tracing id, warnings, custom payload, then the message): which part, in which order, under which
+   guard is REGENERATED from frame/encode.go and frame/decode.go on every run (gen/BodyPlan_gen.v, go2coq unit
+   "bodyplan"); the writer and the reader of the model are the interpretation of the regenerated plans, which visit
+   the same parts in the same order *)
+Theorem C01_body_plan_regenerated : forall mc,
+  (forall h b, encode_body_uncompressed mc h b = run_enc_plan mc h b enc_body_plan) /\
+  (forall h bs, decode_body_parts mc h bs = finish_body (run_dec_plan mc h dec_body_plan (None, None, [], None) bs)) /\
+  map fst enc_body_plan = map fst dec_body_plan /\
+  map fst enc_body_plan = [PTracing; PWarnings; PPayload; PMessage].
+Proof.
+  exact (fun mc => conj (encode_body_is_plan mc) (conj (decode_body_is_plan mc) plan_order_agrees)).
+Qed.
+Print Assumptions C01_body_plan_regenerated.
